@@ -209,3 +209,71 @@ Proof.
   rewrite tokens_unwords by (apply F3; assumption). rewrite Ex, Ey.
   destruct dir; [rewrite Ea; reflexivity|]. destruct Ea as [E1 E2]. rewrite E1, E2. reflexivity.
 Qed.
+
+(* ---- layout: indentation, trailing blanks, runs of blanks and tabs between the tokens ---- *)
+Definition all_ws (g : str) : Prop := forallb is_ws g = true.
+
+(* [layout_of ts s]: the text s consists of the tokens ts in this order, separated by non-empty runs of
+   whitespace, with arbitrary whitespace before the first and after the last token *)
+Inductive layout_of : list str -> str -> Prop :=
+  | lo_nil g : all_ws g -> layout_of [] g
+  | lo_last t : tok_ok t -> layout_of [t] t
+  | lo_cons t g ts s : tok_ok t -> all_ws g -> g <> [] -> layout_of ts s -> layout_of (t :: ts) (t ++ g ++ s)
+  | lo_lead g ts s : all_ws g -> layout_of ts s -> layout_of ts (g ++ s).
+
+Lemma tokens_aux_ws g : all_ws g -> forall rest, tokens_aux [] (g ++ rest) = tokens_aux [] rest.
+Proof.
+  unfold all_ws. induction g as [|c g IH]; intros H rest; [reflexivity|].
+  cbn [forallb] in H. apply andb_true_iff in H. destruct H as [Hc Hg].
+  cbn [app tokens_aux]. rewrite Hc. apply IH. exact Hg.
+Qed.
+
+Lemma rev_nonempty (t : str) : t <> [] -> exists c r, rev t = c :: r.
+Proof.
+  intros H. destruct (rev t) as [|c r] eqn:E; [|eauto].
+  apply (f_equal (@rev N)) in E. rewrite rev_involutive in E. simpl in E. congruence.
+Qed.
+
+Lemma tokens_aux_tok_end t : tok_ok t -> tokens_aux [] t = [t].
+Proof.
+  intros [Hne Hws]. rewrite <- (app_nil_r t) at 1. rewrite (tokens_aux_word t Hws). rewrite app_nil_r. cbn [tokens_aux].
+  destruct (rev_nonempty t Hne) as [c [r E]]. rewrite E. rewrite <- E, rev_involutive. reflexivity.
+Qed.
+
+Lemma tokens_aux_tok t g rest : tok_ok t -> all_ws g -> g <> [] ->
+  tokens_aux [] (t ++ g ++ rest) = t :: tokens_aux [] rest.
+Proof.
+  intros [Hne Hws] Hg Hgne. rewrite (tokens_aux_word t Hws). rewrite app_nil_r.
+  destruct g as [|c g]; [congruence|]. unfold all_ws in Hg. cbn [forallb] in Hg. apply andb_true_iff in Hg. destruct Hg as [Hc Hg].
+  cbn [app tokens_aux]. rewrite Hc.
+  destruct (rev_nonempty t Hne) as [c' [r E]]. rewrite E. rewrite <- E, rev_involutive.
+  f_equal. apply tokens_aux_ws. exact Hg.
+Qed.
+
+Theorem tokens_layout ts s : layout_of ts s -> tokens s = ts.
+Proof.
+  unfold tokens. induction 1 as [g Hg|t Ht|t g ts s Ht Hg Hne _ IH|g ts s Hg _ IH].
+  - rewrite <- (app_nil_r g). rewrite (tokens_aux_ws g Hg). reflexivity.
+  - apply tokens_aux_tok_end. exact Ht.
+  - rewrite (tokens_aux_tok t g s Ht Hg Hne). rewrite IH. reflexivity.
+  - rewrite (tokens_aux_ws g Hg). exact IH.
+Qed.
+
+Lemma layout_tokens_ok ts s : layout_of ts s -> Forall tok_ok ts.
+Proof. induction 1; auto. Qed.
+
+Lemma layout_unwords ts : Forall tok_ok ts -> layout_of ts (unwords ts).
+Proof.
+  induction ts as [|t r IH]; intros H; [apply lo_nil; reflexivity|].
+  inversion H as [|? ? Ht Hr]; subst. destruct r as [|t2 r'].
+  - apply lo_last. exact Ht.
+  - change (unwords (t :: t2 :: r')) with (t ++ [SP] ++ unwords (t2 :: r')).
+    apply lo_cons; [exact Ht|reflexivity|discriminate|apply IH; exact Hr].
+Qed.
+
+(* what a line means depends on its tokens only, not on how they are laid out *)
+Theorem lex_line_layout ts s : layout_of ts s -> lex_line s = lex_line (unwords ts).
+Proof.
+  intros H. unfold lex_line. rewrite (tokens_layout ts s H).
+  rewrite (tokens_unwords ts (layout_tokens_ok ts s H)). reflexivity.
+Qed.
